@@ -293,8 +293,143 @@ def run_roundtrip(case, ctx):
         ctx.nontrivial()
 
 
+# ---------------------------------------------------------------------------------------------------------
+# fieldwise: every scalar of the persisted-field table, observed through the *Python* structure layout
+# (an independent description of struct reb_simulation), is perturbed, saved, restored and read back.
+# The stream comparison of `roundtrip` reads both sides through the C table and cannot see a table row that
+# points at the wrong member; this sub can.
+SCALAR_DTYPES = {0: "double", 1: "int", 2: "uint", 3: "uint32", 4: "int64", 5: "uint64", 7: "vec3d"}
+# not perturbed: value is structural (must agree with the arrays) or rewritten by the writer itself
+# (save_messages is a boolean the Python constructor forces to 1 on every object it creates)
+FW_FIXED = {"N", "N_var", "simulationarchive_version", "walltime", "walltime_last_steps", "functionpointers",
+            "visualization", "header", "sablob", "save_messages"}
+FW_ENUM = {"collision": [1, 4], "integrator": [4, 7], "boundary": [1, 2], "gravity": [0, 2],   # no tree modules: no box configured
+           "ri_whfast.coordinates": [1, 2], "ri_whfast.kernel": [1, 3], "ri_saba.type": [0x4, 0x104],
+           "ri_eos.phi0": [1, 3], "ri_eos.phi1": [2, 5], "ri_trace.peri_mode": [0, 2], "N_active": [1, 2],
+           "testparticle_type": [1], "status": [-1], "N_root_x": [1], "N_root_y": [1], "N_root_z": [1], "N_root": [1]}
+FW_FAMS = ["ias15", "whfast", "mercurius"]
+
+
+def _fw_resolve(sim, name):
+    obj = sim
+    parts = name.split(".")
+    for i, p in enumerate(parts):
+        names = [f[0] for f in type(obj)._fields_]
+        if p in names:
+            q = p
+        elif "_" + p in names:
+            q = "_" + p
+        else:
+            return None
+        if i == len(parts) - 1:
+            return obj, q
+        obj = getattr(obj, q)
+
+
+def _fw_table():
+    from rebound.binary_field_descriptor import binary_field_descriptor_list
+    out = []
+    for fd in binary_field_descriptor_list():
+        n = fd.name.decode("ascii", "replace")
+        if fd.dtype in SCALAR_DTYPES and n not in ("end",):
+            out.append((n, int(fd.dtype)))
+    return out
+
+
+def fieldwise_cases(tier):
+    from .. import build
+    build.activate("opt")
+    tab = _fw_table()
+    cases = []
+    for fam in FW_FAMS:
+        for method in ("file", "pickle", "copy", "bytes"):
+            for n, dt in tab:
+                if n not in FW_FIXED:
+                    for alt in (0, 1):
+                        cases.append({"fam": fam, "method": method, "fields": [n], "alt": alt})
+            for alt in (0, 1):
+                cases.append({"fam": fam, "method": method, "fields": "all", "alt": alt})
+    return cases
+
+
+def _fw_get(sim, name, dt):
+    from .. import rb
+    r = _fw_resolve(sim, name)
+    if r is None:
+        return None
+    v = getattr(r[0], r[1])
+    if dt == 7:
+        return (rb.dbits(v.x), rb.dbits(v.y), rb.dbits(v.z))
+    if dt == 0:
+        return rb.dbits(v)
+    return int(v)
+
+
+def _fw_perturb(sim, name, dt, alt, salt):
+    r = _fw_resolve(sim, name)
+    if r is None:
+        return False
+    obj, q = r
+    cur = getattr(obj, q)
+    if name in FW_ENUM:
+        vals = FW_ENUM[name]
+        v = vals[alt % len(vals)]
+        if name == "N_active":
+            v = min(v, sim.N)
+        setattr(obj, q, v)
+    elif dt == 0:
+        setattr(obj, q, [0.37, 2.5][alt] + salt * 1e-3)
+    elif dt == 7:
+        cur.x, cur.y, cur.z = 0.5 + alt + salt * 1e-3, 1.5 + alt, -2.5 - alt
+    else:
+        setattr(obj, q, int(cur) + 1 + alt if int(cur) < 1000 else 1 + alt)
+    return True
+
+
+def run_fieldwise(case, ctx):
+    import warnings
+    from .. import rb
+    from ..oracles import sa_format
+    warnings.simplefilter("ignore")
+    tab = _fw_table()
+    sim = rb.new_sim({"G": 1.0, "particles": [
+        {"m": 1.0}, {"m": 1e-3, "x": 1.0, "vy": 1.0}, {"m": 1e-4, "x": -2.2, "vy": -0.67, "z": 0.05}]})
+    sim.integrator = case["fam"]
+    sim.dt = 0.05
+    sim.steps(2)
+    todo = [n for n, _ in tab if n not in FW_FIXED] if case["fields"] == "all" else case["fields"]
+    done = []
+    for i, (n, dt) in enumerate(tab):
+        if n in todo and _fw_perturb(sim, n, dt, case["alt"], i):
+            done.append(n)
+    if not done:
+        ctx.skip("field has no counterpart in the Python structure")
+        return
+    before = {n: _fw_get(sim, n, dt) for n, dt in tab}
+    res = restore(sim, case["method"], ctx)
+    after_orig = {n: _fw_get(sim, n, dt) for n, dt in tab}
+    after = {n: _fw_get(res, n, dt) for n, dt in tab}
+    for n, dt in tab:
+        if before[n] is None or n in FW_FIXED:
+            continue
+        if after_orig[n] != before[n] and n in done:
+            raise Violation("saving (%s) changed %s of the original: %r -> %r" % (case["method"], n, before[n], after_orig[n]),
+                            field=n)
+        if after[n] != after_orig[n]:
+            raise Violation("%s: original %r, restored (%s) %r [as read through the Python structure; perturbed: %s]"
+                            % (n, after_orig[n], case["method"], after[n], done if len(done) < 4 else "all"), field=n)
+    m0, m1 = rb.smap(sim), rb.smap(res)
+    if m0 != m1:
+        raise Violation("restored (%s) simulation's persisted content differs from the original" % case["method"],
+                        diff=sa_format.map_diff(m0, m1, rb.field_names())[:8])
+    ctx.cls("fieldwise/" + case["method"])
+    ctx.cls("fieldwise/" + ("all" if case["fields"] == "all" else SCALAR_DTYPES[dict(tab)[done[0]]]))
+    ctx.nontrivial()
+
+
 def subs(tier):
     return [
         Sub("roundtrip", run_roundtrip, strategy=roundtrip_case(), quick=2400, thorough=400000,
             shards_quick=12, shards_thorough=16),
+        Sub("fieldwise", run_fieldwise, cases=fieldwise_cases, exhaustive=True, shards_quick=4, shards_thorough=4),
     ]
